@@ -356,6 +356,18 @@ class Flow:
         return self.tab.atom('alloc', (value_rf, '%s%s#%d' % (getattr(self, '_alloc_prefix', ''), name,
                                                                self._nalloc[name])))
 
+    def _freshen(self, name, rf):
+        """fresh identity for an allocation, also when it arrives as the two arms of a selection
+        (`zeros(a) if c else zeros(b)`, or a helper that returns one of two allocations)"""
+        if self.is_alloc(rf):
+            return self.fresh(name, rf)
+        a = rf.single_atom()
+        if a is not None and self.tab.atoms[a].head == 'guard':
+            c, p, q = self.tab.atoms[a].args
+            if isinstance(p, RF) and isinstance(q, RF) and (self.is_alloc(p) or self.is_alloc(q)):
+                return self.tab.atom('guard', (c, self._freshen(name, p), self._freshen(name, q)))
+        return rf
+
     def is_alloc(self, rf):
         a = rf.single_atom()
         if a is None:
@@ -390,8 +402,8 @@ class Flow:
     def bind(self, target, value_rf, node, op=None):
         t = self.tab
         if isinstance(target, ast.Name):
-            if op is None and self.is_alloc(value_rf):
-                value_rf = self.fresh(target.id, value_rf)
+            if op is None:
+                value_rf = self._freshen(target.id, value_rf)
             self.env[target.id] = value_rf
             self.assign_log.setdefault(target.id, []).append((node, value_rf))
             self.ev('assign', node, name=target.id, value=value_rf, op=op)
